@@ -1,10 +1,11 @@
 #!/bin/sh
 # runs every claimed check (quick tier by default) on the current tree, rewriting evidence/*.json
 T="${1:-quick}"
-cd /verif
+cd "$(dirname "$0")/.." || exit 9
+LOG=${RUNALL_LOG:-/tmp}
 for p in $(python3 -c "import json; print(' '.join(c['property_id'] for c in json.load(open('MANIFEST.json'))['checks']))"); do
   S=$(date +%s)
-  ./check $p --tier $T > /tmp/run_all.$p.out 2>&1; RC=$?
+  ./check $p --tier $T > $LOG/run_all.$p.out 2>&1; RC=$?
   E=$(date +%s)
-  echo "$p exit=$RC $((E-S))s $(grep -c '^KNOWN-FINDING' /tmp/run_all.$p.out) known | $(grep ' tier=' /tmp/run_all.$p.out | cut -c1-150)"
+  echo "$p exit=$RC $((E-S))s $(grep -c '^KNOWN-FINDING' $LOG/run_all.$p.out) known | $(grep ' tier=' $LOG/run_all.$p.out | cut -c1-150)"
 done
